@@ -168,7 +168,8 @@ def blockEvs (L : Lowering) (nd : Nat → Bool) (b : Block) : Option (List Ev) :
   | _ => none
 
 /-- What the ownership reading of the MIR says an instruction does (`Model/Mir`, `cInstr`): a
-    clone of a place / of a global creates a value of a droppable type; a drop releases one. -/
+    clone of a place / of a global creates a value of a droppable type; a drop releases one.
+    That this table IS what `cInstr` does is proved in `Props/C03Lower` §S (S1–S8). -/
 def ownEvs (nd : Nat → Bool) : Instr → List Ev
   | .assign _ ty (.clone p) => if nd ty then [.clone (some p.var) p.proj ty] else []
   | .assign _ ty .global => if nd ty then [.clone none [] ty] else []
